@@ -853,19 +853,19 @@ def _run_case(eqsig, ctx, case):
             if k_scale and j < 2:
                 y = x * (2.0 ** k_scale) if is_float else x * (2 ** abs(k_scale))
                 if _clean(y) is not None and (not is_float or np.all((y != 0) == (x != 0))):
-                    p2 = _call(lambda: im.calc_sig_dur_vals(y, dt, start=s, end=e, se=True))
+                    p2 = _call(lambda: im.calc_sig_dur_vals(y, dt_arg, start=s, end=e, se=True))
                     _rel(ctx, _same(pair, p2), 'rel.scale-pow2-invariant', case, 'calc_sig_dur_vals x 2^%d (start=%r,end=%r)' % (k_scale, s, e),
                          '%r vs %r' % (pair, p2))
             if factor and j < 2 and is_float and x.dtype == np.float64:
                 if _near_knife(x, dt, s, e, 'squares'):
                     ctx.observe('rel.scale-any: base case within 1e-9 of a bound, not judged')
                 else:
-                    p3 = _call(lambda: im.calc_sig_dur_vals(x * factor, dt, start=s, end=e, se=True))
+                    p3 = _call(lambda: im.calc_sig_dur_vals(x * factor, dt_arg, start=s, end=e, se=True))
                     _rel(ctx, _same(pair, p3), 'rel.scale-any-invariant', case, 'calc_sig_dur_vals x %r (start=%r,end=%r)' % (factor, s, e),
                          '%r vs %r' % (pair, p3))
             if k_pad and j < 2:
                 y = np.concatenate([np.zeros(k_pad, dtype=x.dtype), x])
-                p4 = _call(lambda: im.calc_sig_dur_vals(y, dt, start=s, end=e, se=True))
+                p4 = _call(lambda: im.calc_sig_dur_vals(y, dt_arg, start=s, end=e, se=True))
                 okk = _shifted(pair, p4, k_pad, dt)
                 _rel(ctx, okk, 'rel.zero-prepend-shift', case, 'calc_sig_dur_vals, %d zeros prepended (start=%r,end=%r)' % (k_pad, s, e),
                      '%r -> %r, expected shift of %d samples (dt=%r)' % (pair, p4, k_pad, dt))
@@ -874,8 +874,8 @@ def _run_case(eqsig, ctx, case):
             s, e = fracs[0]
             x2 = _other_record(x)
             _repeat_relation(ctx, case, 'calc_sig_dur_vals(start=%r,end=%r)' % (s, e),
-                             lambda: im.calc_sig_dur_vals(xc, dt, start=s, end=e, se=True),
-                             lambda: im.calc_sig_dur_vals(x2, dt, start=s, end=e, se=True))
+                             lambda: im.calc_sig_dur_vals(xc, dt_arg, start=s, end=e, se=True),
+                             lambda: im.calc_sig_dur_vals(x2, dt_arg, start=s, end=e, se=True))
 
     # ------------------------------------------------------------------------------------------ object level
     if not case.get('object_level', True):
@@ -899,10 +899,11 @@ def _object_block(eqsig, ctx, case, asig, dt, fracs, measures, full, compare_fre
     round, in a shuffled order with repeats, each compared with a fresh object of the same values."""
     im = eqsig.im
     cur = np.array(asig.values)
+    dt_obj = asig.dt     # derived objects get the SAME dt object: np.float64 vs float changes numpy's promotion for float32 records
     if _clean(cur) is None:
         ctx.observe('object: values after history not a finite series (not judged)')
         return
-    fresh = eqsig.AccSignal(np.array(cur), dt) if compare_fresh else None
+    fresh = eqsig.AccSignal(np.array(cur), dt_obj) if compare_fresh else None
     ths = _thresholds(cur, case.get('thr_specs') or [])
     form0 = int(case.get('form', 0))
 
@@ -935,10 +936,10 @@ def _object_block(eqsig, ctx, case, asig, dt, fracs, measures, full, compare_fre
     if k_scale:
         ys = cur * (2.0 ** k_scale) if cur_float else cur * (2 ** abs(k_scale))
         if _clean(ys) is not None and (not cur_float or np.all((ys != 0) == (cur != 0))):
-            scaled = eqsig.AccSignal(np.array(ys), dt)
+            scaled = eqsig.AccSignal(np.array(ys), dt_obj)
     padded = None
     if k_pad:
-        padded = eqsig.AccSignal(np.concatenate([np.zeros(k_pad, dtype=cur.dtype), cur]), dt)
+        padded = eqsig.AccSignal(np.concatenate([np.zeros(k_pad, dtype=cur.dtype), cur]), dt_obj)
 
     for mname in [None] + measures:
         imf = MEASURES[mname] if mname else None
@@ -1016,7 +1017,7 @@ def _object_block(eqsig, ctx, case, asig, dt, fracs, measures, full, compare_fre
              '%r / %r then %r / %r' % (p1, s1, p2, s2))
     # process-wide state: another object of the same shape in between, first result re-checked afterwards
     if case.get('repeat') and len(ths) > 1:
-        other = eqsig.AccSignal(_other_record(cur), dt)
+        other = eqsig.AccSignal(_other_record(cur), dt_obj)
         s, e = fracs[0]
         th = ths[1]
         _repeat_relation(ctx, case, 'calc_sig_dur(start=%r,end=%r)' % (s, e),
